@@ -120,6 +120,18 @@ CHECKS = {
             "__int128 is left out (absent on 32-bit targets); members of anonymous nested records are checked for presence of "
             "their assertion, not for the number; foreign-target numbers come from constant folding, nothing is executed.",
             "6/C06"),
+    "C10": ("exploration",
+            "exhaustive enumeration of inner records (<=2 members over 12 atoms x 4 attributes x struct/union) x 5 blocklist/opaque "
+            "modes, each used in 5 positions; inventory + rustc with a trait-less stand-in + C-vs-Rust layout of the container; "
+            "same-name struct/function/variable triples x kind-specific blocklists",
+            "For every inner record and mode the real generator runs on a header that uses the record as member, array element, "
+            "pointee, parameter/result and typedef target; the blocklisted name must not be defined while every use still names it, "
+            "the bindings must compile against a stand-in of the C size/alignment that implements no trait (so no derive went "
+            "through it; with a vouching callback the derives must reappear), opaque types must be exact member-less blobs, and the "
+            "container's size/alignment/offsets must equal the C compiler's.",
+            "Host target only; C++ bases/template arguments as use positions are not generated; stand-in sizes come from the clang "
+            "probe.",
+            "6/C10"),
 }
 
 NOT_YET = "check not built yet in this round (see DESIGN.md section 10a for the plan)"
